@@ -241,7 +241,43 @@ func EnumCells(check, tier string) ([]Cell, []byzConfig) {
 								if check == "C15" && strings.Contains(s.Kind, "add-torsion") {
 									continue // equivalent in the prime-order group after cofactor clearing: may be accepted
 								}
+								if check == "C15" && s.Index == 0 && s.Kind == "cm:+1" {
+									// element 0 of an opening is the commitment's blinding value, not a VSS commitment:
+									// a dealer that commits to another blinding value has not altered anything C15 speaks of
+									continue
+								}
 								add(s.Index, s.Kind)
+							}
+						}
+					}
+					// a point-to-point message altered for ONE recipient only (the other honest parties get the
+					// honest copy and carry on): two recipients per field
+					if !row.Bcast && bi == 0 && (check == "C05" || check == "C06") {
+						nodes, r0 := cfgInt(cfg.P, "n", 0), 0
+						switch {
+						case strings.HasSuffix(cfg.P["proto"].(string), "reshare"):
+							// every point-to-point message of resharing goes to a new member
+							r0 = cfgInt(cfg.P, "oldpart", 2)
+							nodes = r0 + cfgInt(cfg.P, "newn", 2)
+						case strings.HasSuffix(cfg.P["proto"].(string), "sign"):
+							nodes = cfgInt(cfg.P, "signers", 3)
+						}
+						kinds := []string{"+1"}
+						if check == "C06" {
+							kinds = []string{"zero", "flip-low"}
+						}
+						idx := -1
+						if f.List {
+							idx = 0
+						}
+						cnt := 0
+						for r := r0; r < nodes && cnt < 2 && nodes > 2; r++ {
+							if r == b {
+								continue
+							}
+							cnt++
+							for _, k := range kinds {
+								cells = append(cells, Cell{Cfg: ci, Spec: TamperSpec{B: b, Type: row.Type, Field: f.Name, Index: idx, Kind: k, Rcpt: r}})
 							}
 						}
 					}
@@ -371,11 +407,11 @@ func cellScenario(check, tier string, seed uint64, run int) *Scenario {
 			return nil
 		}
 		c = cells[run]
-	} else if prio := shiftCells(cells); run < len(prio) {
+	} else if prio := shiftCells(check, cells); run < len(prio) {
 		// the (few) commitment/response shift attacks are part of every quick run
 		c = prio[run]
 	} else {
-		run -= len(shiftCells(cells))
+		run -= len(shiftCells(check, cells))
 		groups := map[string][]int{}
 		var order []string
 		for i, x := range cells {
@@ -395,12 +431,54 @@ func cellScenario(check, tier string, seed uint64, run int) *Scenario {
 	p["b"], p["ttype"], p["tfield"], p["tidx"], p["tkind"], p["trcpt"] = c.Spec.B, c.Spec.Type, c.Spec.Field, c.Spec.Index, c.Spec.Kind, c.Spec.Rcpt
 	p["oracle"] = check
 	p["cells_total"] = len(cells)
-	return &Scenario{Check: check, Kind: "byz", Seed: seed, Run: origRun, P: p, Sched: SchedConfig{Strategy: "fifo"}}
+	sched := SchedConfig{Strategy: "fifo"}
+	if check == "C05" || check == "C06" {
+		// half of the cells of the two checks whose properties quantify over schedules as well run under
+		// another delivery order: everything before Start, or a random order with delivery before Start
+		h := seedFor(seed, check, origRun, "cell-sched")
+		nodes := cfgInt(p, "n", 0)
+		switch {
+		case strings.HasSuffix(p["proto"].(string), "reshare"):
+			nodes = cfgInt(p, "oldpart", 2) + cfgInt(p, "newn", 2)
+		case strings.HasSuffix(p["proto"].(string), "sign"):
+			nodes = cfgInt(p, "signers", 3)
+		}
+		victim := int(h>>8) % nodes
+		if victim == c.Spec.B {
+			victim = (victim + 1) % nodes
+		}
+		switch h % 4 {
+		case 2:
+			// the victim starts last, with everything the others could send already delivered to it
+			sched = SchedConfig{Strategy: "prestart-flood", PreStart: true, Victim: victim}
+		case 3:
+			sched = SchedConfig{Strategy: "random", PreStart: true, Victim: victim}
+		}
+		if c.Spec.Rcpt >= 0 && (check == "C06" || h%2 == 0) {
+			// a message altered for one recipient only: that recipient is the late starter
+			sched = SchedConfig{Strategy: "prestart-flood", PreStart: true, Victim: c.Spec.Rcpt}
+		}
+	}
+	return &Scenario{Check: check, Kind: "byz", Seed: seed, Run: origRun, P: p, Sched: sched}
 }
 
-func shiftCells(cells []Cell) []Cell {
+func shiftCells(check string, cells []Cell) []Cell {
 	var out []Cell
+	seen := map[string]bool{}
 	for _, c := range cells {
+		// C06: an opening with one whole point fewer or more (still consistent with its commitment) reaches
+		// the index arithmetic behind the hash check; one such cell per message type and direction
+		// C06: a first-round message altered for one recipient who starts last and is driven on after the
+		// error it reports (the catch-up path of Start, then the rounds after an abort)
+		if check == "C06" && c.Spec.Rcpt >= 0 && c.Spec.Kind == "flip-low" && strings.HasSuffix(c.Spec.Type, "SignRound1Message1") {
+			out = append(out, c)
+		}
+		if check == "C06" && (c.Spec.Kind == "cm:pt-remove" || c.Spec.Kind == "cm:pt-dup") {
+			if k := c.Spec.Type + c.Spec.Kind; !seen[k] {
+				seen[k] = true
+				out = append(out, c)
+			}
+		}
 		if strings.HasPrefix(c.Spec.Kind, "shift:") {
 			out = append(out, c)
 		}
@@ -680,17 +758,22 @@ func driveByz(rc *RunCtx) {
 		}
 		return applyAndSend(em), true
 	}
-	// an honest application tears a party down after its first error
+	// an honest application tears a party down after its first error; under the C06 oracle every second
+	// cell keeps delivering to it instead ("at any point of any protocol" includes a party that has
+	// already reported an error)
+	keepDriving := oracle == "C06" && (spec.Rcpt >= 0 || seedFor(sc.Seed, cellID, "keep-driving")%2 == 0)
 	w.AfterStep = append(w.AfterStep, func(ev *StepEvent) *Violation {
-		if ev.Err != nil && ev.Node != B {
+		if ev.Err != nil && ev.Node != B && !keepDriving {
 			ev.Node.Silenced = true
 		}
 		return nil
 	})
-	if strings.HasSuffix(pr.Proto, "reshare") && oracle != "C06" {
-		// erase ordering must hold with a deviating member too (C05 rule 4 is checked at the end)
+	cellSched := sc.Sched
+	if cellSched.Strategy == "" {
+		cellSched.Strategy = "fifo"
 	}
-	w.RunSchedule(&SchedConfig{Strategy: "fifo", MaxSteps: 4000})
+	cellSched.MaxSteps = 4000
+	w.RunSchedule(&cellSched)
 	if len(held) > 0 {
 		// no honest message of that type ever appeared (B was the only sender): release unchanged
 		hs := held
